@@ -6,7 +6,8 @@ from sim.util import pick
 
 def generate(rng, tier):
   cfg = tf_gen.gen_config(rng, emph={'p': [(1, 2), (2, 2), (3, 2), (4, 1), (6, 1)],
-                                     's': [(1, 2), (2, 2), (3, 1), (5, 1)]})
+                                     's': [(1, 2), (2, 2), (3, 1), (5, 1)]},
+                          variants=True)
   x64 = cfg['second_order'] == 'shampoo' and rng.random() < 0.7
   tree = tf_gen.gen_tree(rng, cfg)
   T = rng.randrange(8, 22) if tier == 'quick' else rng.randrange(10, 41)
@@ -21,15 +22,29 @@ def generate(rng, tier):
   return {'system': 'tearfree', 'class': 'tearfree_' + cfg['second_order'],
           'x64': x64, 'mode': 'jit', 'config': cfg, 'tree': tree,
           'lr': ds_gen.gen_lr(rng), 'param_seed': rng.randrange(1000),
-          'ops': ops, 'oracles': ['cadence', 'warmup', 'refine_roots']}
+          'ops': ops, 'oracles': ['cadence', 'warmup_modelled', 'refine_roots']}
 
 
 def run(plan):
   from sim import tf_run
 
+  def modelled(rec):
+    sk = rec['world'].cfg.get('sketchy', {})
+    return not (rec['view'].so == 'sketchy' and (
+        sk.get('ekfac_svd') or sk.get('linear_approx_tail')))
+
   def refine_roots(ctx, rec):
     # cadence contract: on a preconditioner tick the roots reflect the
     # statistics current at that step (full refinement is C15's job)
+    if not modelled(rec):
+      # variants the float64 model does not describe: cadence (bitwise) only
+      ctx.probe('sketchy_variant_cadence_only')
+      return
     tf_run.refine(ctx, rec)
+
+  def warmup_modelled(ctx, rec):
+    if modelled(rec):
+      tf_run.warmup(ctx, rec)
   tf_run.register('refine_roots', refine_roots)
+  tf_run.register('warmup_modelled', warmup_modelled)
   return tf_run.run(plan, 'C04')
